@@ -537,6 +537,11 @@ POINTS = {
 }
 
 
+def _rawpow(a, e):
+    with np.errstate(invalid='ignore'):
+        return np.power(np.asarray(a, dtype=float), e)     # nan for negative entries, as value_in ** (p/q)
+
+
 def _pn(a, p):
     return float((np.abs(a) ** p).sum() ** (1.0 / p))
 
@@ -548,8 +553,8 @@ ATOMS = {
     'norm2':      (lambda r, x, s: r.norm(x),            lambda a, s: float(np.sqrt((a ** 2).sum())), 'norm(x)'),
     'norminf':    (lambda r, x, s: r.norm(x, 'inf'),     lambda a, s: float(np.abs(a).max()),     "norm(x, 'inf')"),
     'square':     (lambda r, x, s: r.square(x),          lambda a, s: a ** 2,                     'square(x)'),
-    'square2d':   (lambda r, x, s: r.square(x),          lambda a, s: a ** 2,                     'square(X)  # X 2x2'),
-    'square0d':   (lambda r, x, s: r.square(x),          lambda a, s: a ** 2,                     'square(x)  # x scalar'),
+    'square2d':   (lambda r, x, s: r.square(x),          lambda a, s: a ** 2,                     'square(X)'),
+    'square0d':   (lambda r, x, s: r.square(x),          lambda a, s: a ** 2,                     'square(x0)'),
     'sumsqr':     (lambda r, x, s: r.sumsqr(x),          lambda a, s: float((a ** 2).sum()),      'sumsqr(x)'),
     'quad':       (lambda r, x, s: r.quad(x, QMAT),      lambda a, s: float(a @ QMAT @ a),        'quad(x, Q)'),
     'quadneg':    (lambda r, x, s: r.quad(x, -QMAT),     lambda a, s: float(-(a @ QMAT @ a)),     'quad(x, -Q)'),
@@ -561,10 +566,10 @@ ATOMS = {
     'power32':    (lambda r, x, s: r.power(x, 3, 2),     lambda a, s: np.abs(a) ** 1.5,           'power(x, 3, 2)'),
     'power22':    (lambda r, x, s: r.power(x, 2, 2),     lambda a, s: np.abs(a),                  'power(x, 2, 2)'),
     'exp':        (lambda r, x, s: r.exp(x),             lambda a, s: np.exp(a),                  'exp(x)'),
-    'exp2d':      (lambda r, x, s: r.exp(x),             lambda a, s: np.exp(a),                  'exp(X)  # X 2x2'),
+    'exp2d':      (lambda r, x, s: r.exp(x),             lambda a, s: np.exp(a),                  'exp(X)'),
     'log':        (lambda r, x, s: r.log(x),             lambda a, s: np.log(a),                  'log(x)'),
     'entropy':    (lambda r, x, s: r.entropy(x),         lambda a, s: float(-(a * np.log(a)).sum()), 'entropy(x)'),
-    'entropy0d':  (lambda r, x, s: r.entropy(x),         lambda a, s: float(-(a * np.log(a)).sum()), 'entropy(x)  # x scalar'),
+    'entropy0d':  (lambda r, x, s: r.entropy(x),         lambda a, s: float(-(a * np.log(a)).sum()), 'entropy(x0)'),
     'softplus':   (lambda r, x, s: r.softplus(x),        lambda a, s: np.log(1 + np.exp(a)),      'softplus(x)'),
     'pexp2':      (lambda r, x, s: r.pexp(x, 2.0),       lambda a, s: 2.0 * np.exp(a / 2.0),      'pexp(x, 2.0)'),
     'pexps':      (lambda r, x, s: r.pexp(x, s),         lambda a, s: s * np.exp(a / s),          'pexp(x, s)'),
@@ -577,7 +582,7 @@ ATOMS = {
 # what the named alternatives of the specification evaluate instead of f
 VARIANTS = {
     ('power3', 'noabs'): lambda a, s: a ** 3.0,
-    ('power32', 'noabs'): lambda a, s: np.sign(a) * np.nan if False else np.power(a.astype(complex), 1.5).real * np.where(a < 0, np.nan, 1.0),
+    ('power32', 'noabs'): lambda a, s: _rawpow(a, 1.5),
     ('pexp2', 'noscale'): lambda a, s: np.exp(a), ('pexps', 'noscale'): lambda a, s: np.exp(a),
     ('plog2', 'noscale'): lambda a, s: np.log(a), ('plogs', 'noscale'): lambda a, s: np.log(a),
     ('expsum', 'elementwise'): lambda a, s: np.exp(a), ('logsum', 'elementwise'): lambda a, s: np.log(a),
@@ -659,7 +664,7 @@ def _replay_atoms(job):
     for rec in job['recs']:
         chain = rec['scene']['chain']
         qr = rec['queries'][0]
-        ctext = _chain_text(text, chain) + '()'
+        ctext = '(' + _chain_text(text, chain) + ')()'
         res = _run(lambda: _apply_chain(mk(rso, x, s), chain, s)())
         qn = _chain_key(chain)
         if rec['unsup']:
@@ -676,7 +681,7 @@ def _replay_atoms(job):
                         'an atom the front end does not evaluate neither says "Unsupported" nor returns its value', qn, ctext, qr['want'], res)
             ctx.cls('deviation-unnamed')
             continue
-        _judge(ctx, qn, ctext + '  # %s, x = %s, s = %g' % (fe, a.tolist(), S_VAL), res, qr['want'], qr['alts'], as_value,
+        _judge(ctx, qn, ctext + '  # %s, %s = %s, s = %g' % (fe, {'vec': 'x', 'mat': 'X (2x2)', 'sca': 'x0 (scalar)'}[shp], a.tolist(), S_VAL), res, qr['want'], qr['alts'], as_value,
                'atom-call:%s:%s' % (atom, fe))
     ctx.cls('atom-' + fe)
     ctx.cls('atom-point-' + point)
